@@ -259,6 +259,9 @@ def run_collapse(ctx, r, spec, t, axis, desc):
     kw = {}
     if custom:
         kw['collapse_f'] = lambda tt, ax: tt.sum(ax) * 4
+    if r.random() < .3:
+        kw['strict'] = r.random() < .5      # irrelevant for labellers that
+        desc['strict'] = kw['strict']       # always answer
     try:
         res = t.collapse(lambda i, m: lab(str(i), m), norm=norm,
                          min_group_size=mgs, include_collapsed_metadata=icm,
@@ -338,8 +341,13 @@ def run_one_to_many(ctx, r, spec, t, axis, desc):
     key = r.choice(['Path', 'KEGG_Pathways'])
     desc.update(op='collapse-one-to-many', mode=mode, assign=assign,
                 md_key=key)
+    # `strict` only concerns labellers that fail part-way; with a labeller
+    # that always answers it must not change anything
+    strict = r.choice([None, None, True, False])
+    kw = {} if strict is None else {'strict': strict}
+    desc['strict'] = strict
     res = t.collapse(f, norm=False, one_to_many=True, one_to_many_mode=mode,
-                     one_to_many_md_key=key, axis=axis)
+                     one_to_many_md_key=key, axis=axis, **kw)
     ctx.count('collapse_one_to_many_' + mode)
     groups = sorted({g for gs in assign.values() for g in gs})
     R = np.zeros((len(groups), V.shape[1]))
